@@ -200,6 +200,9 @@ VCFGT = ("##fileformat=VCFv4.2\n##FORMAT=<ID=GT,Number=1,Type=String,Description
 SIGNED = "chr1\t-5\t+10\tn1\t-7\t+\nchr2\t+3\t007\tn2\t1e3\t-\n"
 
 
+_ONLYLIST = []
+
+
 def _chunk_events(rng):
     """events for lazily read chunks: bytes written before vs after touching every field (twice), and after derived operations"""
     import bionumpy as bnp
@@ -217,13 +220,25 @@ def _chunk_events(rng):
         return NpDataclassReader(NumpyFileReader(io.BytesIO(text.encode()), buf), lazy=True).read(), buf
 
     sources = [("%s/%s" % (f, v), (lambda f=f, v=v: chunk_of(f, v))) for f, vs in CHUNK_SOURCES.items() for v in vs]
+    # a user-defined table whose only column is a list of integers, in a file without a final newline and read in one or several raw reads
+    from bionumpy.io.delimited_buffers import get_bufferclass_for_datatype
+    if not _ONLYLIST:
+        from bionumpy.bnpdataclass import bnpdataclass
+        from typing import List
+
+        @bnpdataclass
+        class OnlyList:
+            values: List[int]
+        _ONLYLIST.append(get_bufferclass_for_datatype(OnlyList, delimiter="\t"))
+    sources += [("custom/list-only-no-final-newline", lambda: raw_chunk("1,2,3\n40,5\n6", _ONLYLIST[0])),
+                ("custom/list-only", lambda: raw_chunk("1,2,3\n40,5\n6\n", _ONLYLIST[0]))]
     sources += [("bed12/list-columns", lambda: raw_chunk(BED12, Bed12Buffer)), ("vcf/genotypes", lambda: raw_chunk(VCFGT, VCFBuffer2)),
                 ("bed6/signed-scientific", lambda: raw_chunk(SIGNED, Bed6Buffer))]
     for name, make in sources:
         o = outcome(make)
         if o[0] == "err":
-            events.append({"f": "read:" + name, "before": "x", "after": "x", "res1": "err", "res2": "err", "special": True, "note": o[1][:100]})
-            continue
+            # the sources are valid files: if one cannot be read nothing below would be compared (and nobody would notice)
+            raise core.MachineryFailure("C20 chunk source %s cannot be read: %s" % (name, o[1][:200]))
         chunk, buf = o[1]
 
         def written(c):
